@@ -73,6 +73,11 @@ inductive S
   | map (val : S)
   | obj (props : Props) (addl : Addl)
   | nullable (s : S)
+  /-- `type: string` with an INTEGER `format` (`int64`, …): `RustPrimitive::from_format` resolves the format whatever the
+  type says, so the member is a Rust integer (finding F02-9) -/
+  | strNum (fmt : IntFmt)
+  /-- `type: string, format: float | double` -/
+  | strFloat (f32 : Bool)
 /-- properties in the generator's iteration order (BTreeMap order of the names) -/
 inductive Props
   | nil
@@ -208,6 +213,8 @@ def typeOf (fname : Str → Str) (vname : J → Str) : S → Ty
   | .arr s => .vec (typeOf fname vname s)
   | .map s => .map (typeOf fname vname s)
   | .nullable s => (typeOf fname vname s).withOption
+  | .strNum f => .int f.range.1 f.range.2
+  | .strFloat f32 => .float f32
   | .obj ps addl =>
     let fs := fieldsOf fname vname ps []
     .struct fs (flatOf fname vname addl) (match addl with | .closed => true | _ => false) ps.anyDefault fs.anyOption
